@@ -33,6 +33,7 @@ inductive Val
   | str (n : Nat)
   | int (n : Nat)
   | list (xs : List Nat)
+  | jl (xs : List Nat)      -- the same list as a JSON string (what remote storage / Redis answer)
   deriving DecidableEq, Repr, Inhabited
 
 structure Cell where
@@ -166,6 +167,7 @@ def fails (ft : Option Tier) (t : Tier) : Bool := ft == some t
 /-- GetList's decoding of the stored value (hybrid_ops.go `GetList`). -/
 def decodeList : Val → Option (List Nat)
   | .list xs => some xs
+  | .jl xs => some xs
   | _ => none
 
 /-- Result of Get/GetList for a stored value. -/
